@@ -316,6 +316,11 @@ func openReach(c *Ctx) *Reach {
 
 func openValidateRule(c *Ctx, rule string) {
 	re := openReach(c)
+	// the open function, its closures and the helpers it calls directly (a header-reading helper, say)
+	openScope := map[*ssa.Function]bool{}
+	for _, f := range c.scope(c.a.OpenFromDB, 2) {
+		openScope[f] = true
+	}
 	nBucket, nDecode := 0, 0
 	for _, fn := range re.sorted() {
 		name := safeFname(fn)
@@ -329,7 +334,7 @@ func openValidateRule(c *Ctx, rule string) {
 			case cname == "(*go.etcd.io/bbolt.Tx).Bucket" || cname == "(*go.etcd.io/bbolt.Bucket).Bucket":
 				// every use of the bucket as receiver must be nil-guarded — in the function that first opens the file.
 				// Once the open function has validated the bucket, later transactions on the same (exclusively locked) file find it.
-				if fn != c.a.OpenFromDB && fn.Parent() != c.a.OpenFromDB {
+				if !openScope[fn] {
 					return
 				}
 				nBucket++
